@@ -192,6 +192,32 @@ def check_symmetry(case, ctx):
     with warnings.catch_warnings():
         warnings.simplefilter('ignore')
         got = _fn(name)(img.copy())
+    # masking complete border rows / columns (with garbage under the mask)
+    # is the same as cropping them away
+    l_, r_, b_, t_ = case.get('border', [0, 0, 0, 0])
+    if l_ + r_ + b_ + t_ > 0:
+        m = np.zeros((ny, nx), bool)
+        m[:, :l_] = True
+        m[:b_, :] = True
+        if r_:
+            m[:, nx - r_:] = True
+        if t_:
+            m[ny - t_:, :] = True
+        junk = img.copy()
+        junk[m] = 1e5
+        crop = img[b_:ny - t_, l_:nx - r_]
+        with warnings.catch_warnings():
+            warnings.simplefilter('ignore')
+            gm = _fn(name)(junk, mask=m)
+            gc = _fn(name)(crop.copy())
+        ctx.event('border_mask')
+        if np.all(np.isfinite(gc)) or np.all(np.isfinite(gm)):
+            tolb = 1e-9 if name == 'com' else 1e-5
+            if not (abs(gm[0] - (gc[0] + l_)) <= tolb and abs(gm[1] - (gc[1] + b_)) <= tolb):
+                raise Violation('border_mask_vs_crop',
+                                f'centroid_{name} with border rows/columns '
+                                f'{[l_, r_, b_, t_]} masked gives {gm}; on the '
+                                f'cropped array it gives {gc} + ({l_}, {b_})')
     if name == 'com':
         # compact support needed: multiply by a symmetric window
         yy, xx = np.mgrid[0:ny, 0:nx]
@@ -227,7 +253,9 @@ def symmetry_cases(draw):
             'centre2': [draw(st.integers(nx - 6, nx + 4)), draw(st.integers(ny - 6, ny + 4))],
             'comps': comps, 'pedestal': draw(st.sampled_from([0.0, 2.0])),
             'func': draw(st.sampled_from(['com', '1dg', '2dg'])),
-            'support': draw(st.integers(2, 5))}
+            'support': draw(st.integers(2, 5)),
+            'border': draw(st.one_of(st.just([0, 0, 0, 0]), st.lists(
+                st.integers(0, 3), min_size=4, max_size=4)))}
 
 
 # --------------------------------------------------------------------------
@@ -359,13 +387,23 @@ def check_sources(case, ctx):
     kw = {}
     if error is not None:
         kw['error'] = error
+    qkw = {}
     if case['peak'] and name == 'quadratic':
-        kw['xpeak'] = None   # placeholder, per-position below
+        # extra keyword arguments are forwarded to the centroid function;
+        # xpeak / ypeak are image coordinates shifted into each cutout (they
+        # fall outside the cutouts of the other positions -> NaN there)
+        k0 = case.get('peak_of', 0) % len(stars)
+        qkw['xpeak'] = int(round(xs[k0])) + case.get('peak_dx', 0)
+        qkw['ypeak'] = int(round(ys[k0]))
+        qkw['fit_boxsize'] = case.get('fit_boxsize', 5)
+        if case.get('search_boxsize'):
+            qkw['search_boxsize'] = case['search_boxsize']
+        ctx.event('quadratic_peak_kwargs')
+    kw.update(qkw)
     ctx.event(name)
 
     def call(xv, yv):
         kk = dict(kw)
-        kk.pop('xpeak', None)
         args = dict(box_size=bs) if fp is None else dict(footprint=fp, box_size=None)
         with warnings.catch_warnings():
             warnings.simplefilter('ignore')
@@ -393,6 +431,10 @@ def check_sources(case, ctx):
         kk = {}
         if error is not None:
             kk['error'] = error[sl]
+        if qkw:
+            kk.update(qkw)
+            kk['xpeak'] = qkw['xpeak'] - sl[1].start
+            kk['ypeak'] = qkw['ypeak'] - sl[0].start
         try:
             with warnings.catch_warnings():
                 warnings.simplefilter('ignore')
@@ -445,6 +487,9 @@ def sources_cases(draw):
             'box': draw(st.sampled_from([5, 7, 9, 11])),
             'footprint': draw(st.booleans()), 'mask': draw(st.booleans()),
             'error': draw(st.booleans()), 'peak': draw(st.booleans()),
+            'peak_of': draw(st.integers(0, 4)), 'peak_dx': draw(st.sampled_from([0, 0, 1, -1])),
+            'fit_boxsize': draw(st.sampled_from([3, 5, [3, 5]])),
+            'search_boxsize': draw(st.sampled_from([None, 3, 5])),
             'perm': draw(st.lists(st.integers(0, 9), min_size=1, max_size=5))}
 
 
